@@ -66,10 +66,10 @@ view path, with the flush to the parent marker) succeeds and restores precisely 
 set and the active chain; the bucket then holds that set by itself and the cache is empty. -/
 theorem disconnect_connect_id (s : State) (b : Block) (validate bip30 full : Bool) (h : Inv s)
     (hv : validBlock (utxoRev s.chainRev) (s.chainRev.length + 1) b)
-    (hid : b.id ∉ s.chainRev.map (·.id)) :
+    (hid : b.id ∉ s.chainRev.map (·.id)) (hnz : b.id ≠ 0) :
     ∃ s1 s2, connect s b validate bip30 full = some s1 ∧ step s1 (.detach 1) = some s2 ∧
       s2.chainRev = s.chainRev ∧ abs s2.cache s2.db = abs s.cache s.db ∧ Inv s2 := by
-  obtain ⟨s1, h1, hi1, hc1⟩ := connect_inv s b validate bip30 full h hv hid
+  obtain ⟨s1, h1, hi1, hc1⟩ := connect_inv s b validate bip30 full h hv hid hnz
   obtain ⟨s2, h2, hi2, hc2⟩ := step_inv s1 (.detach 1) hi1 (by simp [OpOk, hc1])
   refine ⟨s1, s2, h1, h2, ?_, ?_, hi2⟩
   · rw [hc2, hc1]; rfl
@@ -89,7 +89,7 @@ changes nothing an observer can see, and keeps the invariant. -/
 theorem flush_preserves (s : State) (mode : Mode) (full due : Bool) (h : Inv s) :
     Inv (flush s mode full due) ∧ (flush s mode full due).chainRev = s.chainRev ∧
     abs (flush s mode full due).cache (flush s mode full due).db = abs s.cache s.db := by
-  have := flushAt_inv s (tipId s.chainRev) mode full due h
+  have := flushAt_inv s (tipId s.chainRev) mode full due h rfl
   refine ⟨this.1, this.2.1, ?_⟩
   have h2 := this.1.abs_eq
   unfold flush
@@ -113,6 +113,42 @@ invariant (whatever the chain). -/
 theorem writeCache_eq_view (c : Cache) (db : Db) (h : CInv c db) : writeCache c db = abs c db :=
   writeCache_eq_abs c db h
 
+/-! ### what is persisted, at every moment; unclean shutdown and start-up replay -/
+
+/-- `persisted_eq_fold_at_marker`: in EVERY state satisfying the invariant - not only right
+after a flush - the persisted bucket is exactly the fold of the active chain up to the block
+named by the persisted consistency marker, and that block is on the active chain. This covers
+the flushes performed by `connectBlock`, `disconnectBlock`, `FlushUtxoCache` and by the replay
+loop of `InitConsistentState`. -/
+theorem persisted_eq_fold_at_marker (s : State) (h : Inv s) :
+    ∃ above below, s.chainRev = above ++ below ∧ tipId below = s.marker ∧
+      s.db = utxoOf below.reverse := by
+  obtain ⟨above, below, h1, h2, h3⟩ := h.persist
+  exact ⟨above, below, h1, h2, by rw [utxoOf_reverse]; exact h3⟩
+
+/-- `crash_restart_recovers`: drop the whole in-memory state at any quiescent point (unclean
+shutdown); a start-up that completes - with ANY cache size, i.e. any flush/no-flush outcome
+after every replayed block - never asserts, keeps the active chain and the journal, reports
+exactly the fold again and re-establishes the full invariant. Needs only the persistent part
+of the invariant. -/
+theorem crash_restart_recovers (s : State) (fulls : List Bool) (h : PInv s) :
+    ∃ s', restart s fulls = some s' ∧ Inv s' ∧ s'.chainRev = s.chainRev ∧ s'.journal = s.journal ∧
+      ∀ o, abs s'.cache s'.db o = utxoOf s.chainRev.reverse o := by
+  obtain ⟨s', h1, hi, hc, hj⟩ := restart_inv s fulls h
+  exact ⟨s', h1, hi, hc, hj, fun o => by rw [utxoOf_reverse, ← hc, hi.abs_eq]⟩
+
+/-- `restart_interrupted_keeps_persisted`: a start-up that is interrupted (or dies) after any
+number `n` of replayed blocks, with any flush outcomes, leaves a persistent state that again
+satisfies the persistent invariant (bucket = fold at the NEW marker, journal exact), so any
+number of interrupted start-ups followed by a completed one recovers (`step_preserves` for
+`Op.restart aborts fulls`). -/
+theorem restart_interrupted_keeps_persisted (s : State) (n : Nat) (fulls : List Bool) (h : PInv s) :
+    ∃ s', restartAborted s n fulls = some s' ∧ PInv s' ∧ s'.chainRev = s.chainRev :=
+  restartAborted_pinv s n fulls h
+
+/-- The persistent part of the invariant follows from the invariant. -/
+theorem inv_persistent (s : State) (h : Inv s) : PInv s := h.pinv
+
 /-! ### the spend journal -/
 
 /-- `journal_exact`: in every state satisfying the invariant (hence after every well-formed
@@ -133,10 +169,10 @@ theorem journal_exact (s : State) (h : Inv s) (pre : List Block) (b : Block) (po
 /-- A connect stores exactly the Spec journal of the new block. -/
 theorem journal_of_connect (s : State) (b : Block) (validate bip30 full : Bool) (h : Inv s)
     (hv : validBlock (utxoRev s.chainRev) (s.chainRev.length + 1) b)
-    (hid : b.id ∉ s.chainRev.map (·.id)) :
+    (hid : b.id ∉ s.chainRev.map (·.id)) (hnz : b.id ≠ 0) :
     ∃ s', connect s b validate bip30 full = some s' ∧
       s'.journal b.id = some (journalOf (utxoOf s.chainRev.reverse) (s.chainRev.length + 1) b) := by
-  obtain ⟨s', h1, hi, hc⟩ := connect_inv s b validate bip30 full h hv hid
+  obtain ⟨s', h1, hi, hc⟩ := connect_inv s b validate bip30 full h hv hid hnz
   refine ⟨s', h1, ?_⟩
   have hj := hi.journal
   rw [hc] at hj
@@ -214,7 +250,8 @@ theorem fc03a_old_rule_breaks_history :
 
 /-- A well-formed history exists: connect, flush, connect a spend, detach both, re-attach. -/
 example : HistOk [] [.connect exB1 true false, .flush .required false false,
-    .connect exB2 true true, .fetch (1, 0), .detach 2, .attach exB1 false] := by
+    .connect exB2 true true, .fetch (1, 0), .restart [(1, [true])] [false, true], .detach 2,
+    .attach exB1 false] := by
   decide
 
 /-! ### pins of regenerated constants -/
